@@ -173,8 +173,8 @@ def check(ctx, rep):
     for bb, i, s in rt.stmts('assign'):
         rv = s['rv']
         if rv['k'] == 'agg' and path_matches(rv.get('adt'), 'crux_core::command::executor::CommandWaker'):
-            w = dict(zip(rv['fields'], rv['ops']))['woken']
-            fresh = any(o.kind == 'call' and last_seg(o.term.get('callee') or '') == 'new' and o.term['args'] and o.term['args'][0].get('v') == 0
+            w = dict(zip(rv['fields'], rv['ops'])).get('woken')
+            fresh = w is not None and any(o.kind == 'call' and last_seg(o.term.get('callee') or '') == 'new' and o.term['args'] and o.term['args'][0].get('v') == 0
                         for o in origins(rt, w))
     rep.expect('R07.c', fresh, 'fresh-waker', 'each poll gets a new CommandWaker with woken = false',
                'Command::run_task no longer creates a fresh waker with woken == false for each poll')
